@@ -12,7 +12,7 @@ from simkit import gen, launch, pipe
 from simkit.kernel import EventLog, Forks, RunStats, Scratch, Violation, digest, sub_rng
 
 SPEC = {
-    "C16": dict(engine="batchsim", level="exploration", runs=dict(quick=700, thorough=15000), chunk=5,
+    "C16": dict(engine="batchsim", level="exploration", runs=dict(quick=700, thorough=6000), chunk=5,
                 rule="per run: a screen with 1-6 samples x 0-6 single-sample plates (some observed), k in 1..4, and a batch grown by up to "
                      "3k selections from the empty batch; at every step the simulator chooses which allowed plate gets the best score "
                      "(ties included), so over seeds every allowed plate wins somewhere; thorough tier walks ALL winners of small screens "
@@ -195,10 +195,45 @@ def _run_screen(plan, spec, scratch, log, stats, violation):
             for p in lay:
                 sh.add_score(p, score_of(p))
             if path.startswith("cli"):
-                f = scratch.file("score_chunk_0.h5")
-                sh.save_h5(f)
-                got = pipe.p_select(scr_path, [f], scratch.file("selected_plate"), policy="RecordingPolicy", batch=batch,
-                                    seed=3, entropy=pipe.h64(plan["seed"], len(batch)))
+                # the scores reach the selection process as one to three chunk files, in any order
+                n_files = rnd.randint(1, min(3, max(1, len(lay))))
+                parts = [lay[i::n_files] for i in range(n_files)]
+                files = []
+                for part in parts:
+                    shp = ChunkedScoresHolder(len(part))
+                    for p in part:
+                        shp.add_score(p, score_of(p))
+                    fpath = scratch.file("score_chunk.h5")
+                    shp.save_h5(fpath)
+                    files.append(fpath)
+                rnd.shuffle(files)
+
+                def select(fs):
+                    return pipe.p_select(scr_path, fs, scratch.file("selected_plate"), policy="RecordingPolicy", batch=batch,
+                                         seed=3, entropy=pipe.h64(plan["seed"], len(batch)))
+
+                if len(files) >= 2 and rnd.random() < 0.25:
+                    # fault input.torn-file: one of the chunk files was cut off by a pre-empted scoring job (its first bytes
+                    # only).  Selection may fail -- scoring is then repeated and selection run again -- or cope; whatever
+                    # plate it hands out is judged against the policy as always
+                    victim = rnd.randrange(len(files))
+                    torn = scratch.file("score_chunk_torn.h5")
+                    with open(files[victim], "rb") as fh:
+                        head = fh.read()
+                    with open(torn, "wb") as fh:
+                        fh.write(head[: max(8, len(head) // 3)])
+                    stats.fault("input.torn-file")
+                    try:
+                        got = select(files[:victim] + [torn] + files[victim + 1:])
+                        stats.probe("selection_coped_with_torn_input")
+                    except pipe.HarnessError:
+                        raise
+                    except Exception:
+                        stats.probe("selection_failed_on_torn_input")
+                        RP.calls = []
+                        got = select(files)
+                else:
+                    got = select(files)
             else:
                 pl = select_next_plate(scores=sh, screen=scr, policy=RP(), batch_plate_ids=list(batch), rng=np.random.default_rng(1))
                 got = -1 if pl is None else int(pl.plate_id)
